@@ -818,12 +818,32 @@ func scalarContents(v *jv) []*jv {
 		}
 	}
 	switch {
+	case strings.HasPrefix(v.lit, `[`):
+		// array-valued members: replaced as a whole by the empty array, an array holding null,
+		// the same array twice over, and (arrays of objects) the first element with every member
+		// nulled — nulls inside arrays are NOT removals
+		var arr []any
+		if json.Unmarshal([]byte(v.lit), &arr) == nil {
+			add(`[]`, `[null]`)
+			if len(arr) > 0 {
+				b, _ := json.Marshal(append(append([]any{}, arr...), arr...))
+				add(string(b))
+				if m, ok := arr[0].(map[string]any); ok {
+					nulled := map[string]any{}
+					for k := range m {
+						nulled[k] = nil
+					}
+					b, _ := json.Marshal([]any{nulled})
+					add(string(b))
+				}
+			}
+		}
 	case strings.HasPrefix(v.lit, `"`):
 		long, _ := json.Marshal(strings.Repeat("x y ", 80))
 		add(`""`, `"null"`, `"~"`, `"yes"`, `"1e3"`, `"0x10"`, `" a: b #c"`, `"- x"`, `"line1\nline2"`, `"\ttab"`, `"§ü€"`, `"\u003c\u003e\u0026"`, `"'\"\\"`, `"{}"`, `"[]"`, string(long))
 	case v.lit == `true` || v.lit == `false`:
 		add(`true`, `false`)
-	case v.lit != `null` && !strings.HasPrefix(v.lit, `[`):
+	case v.lit != `null`:
 		add(`0`, `-1`, `1.5`, `1000000`)
 	}
 	return out
@@ -1107,7 +1127,20 @@ func TestVerif(t *testing.T) {
 		if r.Shard == 0 {
 			r.Extra("values_part_A2", len(vals2)+len(deep2))
 		}
-		for _, set := range [][]*jv{vals2, deep2} {
+		// arrays as values at every level, holding objects / arrays / nulls themselves: an array is
+		// a non-object value, it replaces (and is replaced) as a whole, nothing inside it is merged
+		// and nulls inside it stay
+		leaves3 := []string{`null`, `true`, `[{"a":null}]`, `[[null],{}]`, `[{"a":{"a":null}},1]`}
+		arr2 := gen(2, []string{"a", "b"}, leaves3)
+		arr3 := gen(3, []string{"a"}, leaves3)
+		if r.Shard == 0 {
+			r.Extra("values_part_A3", len(arr2)+len(arr3))
+		}
+		for si, set := range [][]*jv{vals2, deep2, arr2, arr3} {
+			suffix, cls := "falsy-values-and-member-names", "2:falsy-values-and-member-names"
+			if si >= 2 {
+				suffix, cls = "arrays-of-containers", "3:arrays-of-containers"
+			}
 			for i, tv := range set {
 				if !r.Mine(i) {
 					continue
@@ -1123,15 +1156,15 @@ func TestVerif(t *testing.T) {
 							if part == "B" {
 								prefix = "json-pipeline"
 							}
-							r.Violation(prefix+"/differs-from-rfc7396/"+failKind(tv, pv)+"/falsy-values-and-member-names",
+							r.Violation(prefix+"/differs-from-rfc7396/"+failKind(tv, pv)+"/"+suffix,
 								fmt.Sprintf("target %s patch %s: got %s (panic %v), RFC 7396 gives %s", tv.canon(), pv.canon(), got, pk, want),
-								pairCase{Part: part + "2", Target: tv.canon(), Patch: pv.canon()})
+								pairCase{Part: part + cls[:1], Target: tv.canon(), Patch: pv.canon()})
 						}
 					}
 				}
 				r.Eval(2 * len(set))
-				r.ClassN("A2:falsy-values-and-member-names", len(set))
-				r.ClassN("B2:falsy-values-and-member-names", len(set))
+				r.ClassN("A"+cls, len(set))
+				r.ClassN("B"+cls, len(set))
 			}
 		}
 
@@ -1143,16 +1176,20 @@ func TestVerif(t *testing.T) {
 func replay(r *vrt.R, rp map[string]string) {
 	r.Eval(1)
 	switch rp["part"] {
-	case "A2", "B2":
+	case "A2", "B2", "A3", "B3":
 		tv, pv := parseJV(rp["target"]), parseJV(rp["patch"])
-		part := strings.TrimSuffix(rp["part"], "2")
+		part := rp["part"][:1]
+		suffix := "falsy-values-and-member-names"
+		if strings.HasSuffix(rp["part"], "3") {
+			suffix = "arrays-of-containers"
+		}
 		got, want, pk := runPair(part, tv, pv)
 		if pk != nil || got != want {
 			prefix := "applyMergePatch"
 			if part == "B" {
 				prefix = "json-pipeline"
 			}
-			r.Violation(prefix+"/differs-from-rfc7396/"+failKind(tv, pv)+"/falsy-values-and-member-names", fmt.Sprintf("target %s patch %s: got %s (panic %v) want %s", rp["target"], rp["patch"], got, pk, want), rp)
+			r.Violation(prefix+"/differs-from-rfc7396/"+failKind(tv, pv)+"/"+suffix, fmt.Sprintf("target %s patch %s: got %s (panic %v) want %s", rp["target"], rp["patch"], got, pk, want), rp)
 		}
 	case "M":
 		checkMalformed(r, rp["base"], baseByName(rp["base"]), rp["patch"])
